@@ -91,17 +91,22 @@ def sweep_single(base, limit=60):
     for k in range(limit):
         d = dict(base, faults=[k])
         yield d
-        if not _fired(G.run_impl(d), k):
+        fired = _fired(G.run_impl(d), k)
+        forget_synthetic_classes()
+        if not fired:
             return
 
 
 def sweep_pairs(base, limit=40, rng=None, sample=None):
     for k1 in range(limit):
-        if not _fired(G.run_impl(dict(base, faults=[k1])), k1):
+        fired1 = _fired(G.run_impl(dict(base, faults=[k1])), k1)
+        forget_synthetic_classes()
+        if not fired1:
             return
         for k2 in range(k1 + 1, limit):
             d = dict(base, faults=[k1, k2])
             fired = _fired(G.run_impl(d), k2)
+            forget_synthetic_classes()
             if sample is None or rng.random() < sample:
                 yield d
             if not fired:
@@ -172,7 +177,7 @@ def _make_inputs(tier, seed):
         yield from sweep_single(b)
         yield from sweep_pairs(b)
     # random tables, every single fault; pairs on a subset
-    nb = 40 if quick else 400
+    nb = 40 if quick else 300
     for i in range(nb):
         wc = i % 2 == 0
         b = G.gen_case(rng, nf=rng.choice([3, 4, 5]), no=rng.choice([3, 4, 5]), with_ctx=wc, gens=(not wc and i % 3 == 1))
@@ -183,10 +188,10 @@ def _make_inputs(tier, seed):
         if i % (8 if quick else 4) == 0:
             yield from sweep_pairs(b, rng=rng, sample=0.5 if quick else 1.0)
     # random multi-fault sets
-    for _ in range(600 if quick else 8000):
+    for _ in range(600 if quick else 6000):
         yield G.gen_case(rng, nf=5, no=5, faults=rng.randrange(1, 5), **rng.choice([dict(with_ctx=True), dict(with_ctx=True), dict(gens=True), dict()]))
     # small scope of C10 (3 objects x 2 frames, all result alphabets): every single fault, all pairs
-    for b in small_scope(1499 if quick else 41, seed):
+    for b in small_scope(1499 if quick else 97, seed):
         yield from sweep_single(b)
         if not quick:
             yield from sweep_pairs(b)
@@ -270,7 +275,29 @@ def _run_instrumented(desc):
     return obs
 
 
+def forget_synthetic_classes():
+    """frames_gen registers fresh item classes with unwrap_stackitem for every case and never removes
+    them; functools.singledispatch then scans the whole registry on each cache miss, which makes long
+    runs quadratic.  Harness hygiene only: drop the registrations of classes made by frames_gen."""
+    import gc
+    from stackscope import unwrap_stackitem
+    for ref in gc.get_referents(unwrap_stackitem.registry):
+        if isinstance(ref, dict):
+            dead = [k for k in ref if getattr(k, "__module__", "") == G.__name__ and k.__name__.startswith("Obj")]
+            for k in dead:
+                del ref[k]
+            if dead:
+                unwrap_stackitem._clear_cache()
+
+
 def run_case(desc):
+    try:
+        return _run_case(desc)
+    finally:
+        forget_synthetic_classes()
+
+
+def _run_case(desc):
     obs = _run_instrumented(desc)
     if desc["faults"] and desc["mode"] == "extract" and obs.get("kind") == "ok":
         key = json.dumps(dict(desc, faults=[]), sort_keys=True)
